@@ -39,12 +39,19 @@ func NewMaxJobsSemaphore(limit int) *MaxJobsSemaphore {
 // then we only treat the metadata object as having one job running ever.
 //
 // If nonblocking is true, then if the semaphore cannot be acquired immediately
-// (mostly) then it will return false.
+// (mostly) then it will return false.  This is used to re-attach, after a
+// restart, to jobs which were already submitted: such a job may have started
+// running in the meantime, and still occupies its slot.
 func (self *MaxJobsSemaphore) Acquire(metadata *Metadata, nonblocking bool) bool {
 	if metadata == nil {
 		return false
 	}
-	if st, ok := metadata.getState(); ok && st != Queued && st != Waiting {
+	canceled := func() bool {
+		st, ok := metadata.getState()
+		return ok && st != Queued && st != Waiting &&
+			!(nonblocking && st == Running)
+	}
+	if canceled() {
 		return false
 	}
 	// In case this particular metadata object is waiting more than once,
@@ -57,7 +64,7 @@ func (self *MaxJobsSemaphore) Acquire(metadata *Metadata, nonblocking bool) bool
 		if self.Limit <= 0 {
 			return false
 		}
-		if st, ok := metadata.getState(); ok && st != Queued && st != Waiting {
+		if canceled() {
 			return false
 		}
 		if _, ok := self.running[metadata]; ok {
@@ -68,7 +75,7 @@ func (self *MaxJobsSemaphore) Acquire(metadata *Metadata, nonblocking bool) bool
 		}
 		self.cond.Wait()
 	}
-	if st, ok := metadata.getState(); ok && st != Queued && st != Waiting {
+	if canceled() {
 		return false
 	}
 	self.running[metadata] = struct{}{}
